@@ -201,6 +201,18 @@ def check_tree(ctx, batch, origin, root, xml, parsed, every_start=False):
             pretty = el.decode(indent_level=0, formatter=f)
             if ind == "registry" and el.prettify(formatter=name) != pretty:
                 ctx.fail({"origin": origin}, "prettify() is not decode(indent_level=0)", None, None)
+            # every way of asking for the pretty form gives the same text: prettify(formatter=object) and the bytes form
+            # prettify(encoding) decoded again (a document-level object writes its XML declaration / meta charset for that
+            # encoding, so the bytes form is compared through utf-8, the default eventual encoding of decode())
+            try:
+                via_obj = el.prettify(formatter=f)
+                via_bytes = el.prettify("utf-8", formatter=f).decode("utf-8")
+            except Exception as e:
+                via_obj = via_bytes = "EXC:" + type(e).__name__
+            if via_obj != pretty or via_bytes != pretty:
+                ctx.fail({"origin": origin, "formatter": name, "indent": repr(ind)},
+                         "prettify(formatter=<object>) / prettify(encoding, formatter=<object>) differ from decode(indent_level=0, formatter=<object>)",
+                         (via_obj[:200], via_bytes[:200]), pretty[:200], tag="prettify-entry-points")
             plain = el.decode(formatter=f)
             case = {"origin": origin, "formatter": name, "indent": repr(ind), "start": G.qname(el) if el is not root else "[root]",
                     "pretty": pretty}
